@@ -79,7 +79,10 @@ def gen_cases(seed, tier):
                 for nb in (b + b"\x00", b[:-1] if b else b"\x01", b + b"\xff"):
                     probes.append([(n2, vals[n2]) for n2 in c["sort"][:-1]] + [(nm, ("a", "x:" + (nb.hex() or "-")))])
             else:
-                probes.append([(n2, vals[n2]) for n2 in c["sort"][:-1]] + [(nm, (v[0], v[1] + 1))])
+                # the neighbouring integer, kept inside what the property type can hold
+                hi = 2**64 - 1 if v[0] == "u" else 2**63 - 1
+                nv = v[1] + 1 if v[1] < hi else v[1] - 1
+                probes.append([(n2, vals[n2]) for n2 in c["sort"][:-1]] + [(nm, (v[0], nv))])
         for pr in probes:
             for iname, _, _ in wins:
                 for ordered in (0, 1):
